@@ -1,12 +1,77 @@
 PROP = dict(
-    unclaimed=True,
     module="M3d.Props.C14",
-    corr=dict(quick=120, thorough=700),
+    corr=dict(quick=150, thorough=1200),
     gen=[],
-    corr_theorems="(being built)",
-    rule="(being built)",
-    trusted=[],
-    assumptions=[],
-    level_text="(being built)",
-    level_note="(being built)",
+    corr_theorems=(
+        "M3d.C14.triangulation_certificate_sound (+ cert_area_redundant, triangulation_cover_partial): the driver "
+        "evaluates the proved checker certOk at Rat on the REAL triangle list of every call (kinds ear/mesh/single/face) "
+        "and prints what the property requires; profile: profile_volume_eq_area_times_height + "
+        "profile_mesh_manifold_partial (Surface.closedManifold_iff) on the real ProfileMesh soup, which must also equal "
+        "the model profileSoup of its caps; mono/vtype/splits/earseq compare the faithful models monoTris / vertexType / "
+        "sweepSplits / triangulate (monotone_stack_area, sweep_types_turn, ear_clip_area, ear_clip_orientation are about "
+        "these) with the real internals exactly"),
+    rule=(
+        "random simple lattice polygons with dyadic coordinates (den 1..16): convex hulls, star-shaped, polygonal and "
+        "rectilinear spirals, rectangular/triangular combs, staircases, 2-opt untangled random polygons (many reflex "
+        "vertices), edge-splitting growth, near-degenerate slivers (|orient| = 1 lattice unit), long colinear runs "
+        "(subdivided edges), x-monotone polygons; ear: every rotation of the start vertex (sampled above 10 vertices) x "
+        "both vertex orders x one random rigid lattice map (rotations by 90 degrees, reflections, translations); "
+        "mesh/profile: regions with up to 6 loops, holes and nested islands, several outer loops, documented orientation "
+        "(outer clockwise, holes counter-clockwise), random rigid map; single/splits/vtype/mono: the un-rotated "
+        "internals on inputs sheared to pairwise distinct x; face: 2-D polygons embedded by exact lattice-affine maps "
+        "into axis planes and tilted planes (incl. the 3-4-5 rotation). Distinct = distinct op line (input + returned "
+        "triangles)"),
+    trusted=[
+        "modelled, not verified: floating point. Every decision the Go code takes through clockwiseAngle (atan2/sin) is "
+        "modelled as the sign of the exact determinant orient; the tolerances 1e-8 of removeColinearPoints and of the "
+        "ear's diagonal test are modelled as exact colinearity / the closed condition X+Y<=1. On the generated dyadic "
+        "inputs the two coincide (smallest non-zero |sin| ~1e-6), which the exact earseq/mono/splits/vtype "
+        "correspondence confirms; for inputs whose features are below 1e-8 the tolerance removes near-colinear vertices "
+        "and the area is then only exact up to that tolerance (by design of the code)",
+        "not mechanised: (a) a positively oriented triangle has winding number = indicator of its interior, (b) the "
+        "polygonal Jordan theorem for the INPUT boundary, (c) subdivision-additivity of the crossing functional; with "
+        "them triangulation_cover_partial + clause 4 of triangulation_certificate_sound give non-overlap/inside/cover "
+        "pointwise. Proved instead: the chain-level statement (boundary of the sum of oriented triangles = oriented input "
+        "boundary) for every antisymmetric subdivision-additive functional, the area equation, orientation, vertex set",
+        "not mechanised: functional correctness of the sweep (its diagonals are non-crossing and inside), of the face "
+        "walk, of misalignMesh/mesh hierarchy, and that colinear removal preserves the area (true for polygons without "
+        "repeated consecutive points): certified PER RUN by the proved checker on the real output, not for all inputs",
+        "monotone_stack_area is about the chain-dictated orientation rawFan; the Go code's fixCW agrees with it when "
+        "the triangle is clockwise (fixCW_eq_rawFan); that every fan triangle of a monotone polygon is clockwise is a "
+        "geometric fact checked per run (mono correspondence, certificate), not proved",
+        "profile_mesh_manifold_partial: ClosedManifold of the ProfileMesh soup is decided per instance by Surface's "
+        "proved decider (and the soup is compared with the model profileSoup); the universal counting proof from the "
+        "cap certificate is not mechanised; the volume identity IS proved for all certified caps",
+        "TriangulateFace: the projection uses Normalize (sqrt), so its chart is not executed exactly; the certificate is "
+        "evaluated in the exact chart obtained by dropping a coordinate, justified by orient_affine",
+        "input validity (simple, properly nested, oriented) is decided by untrusted code in the driver (simpleLoop / "
+        "validRegion) and in the harness (isSimple); a generator bug would show as 'invalid-input' disagreements",
+    ],
+    assumptions=[
+        "inputs are strictly simple polygons / regions bounded by pairwise disjoint simple loops with the documented "
+        "orientation (normals out of the solid), planar faces; holes touching the outer boundary are out of scope",
+        "known finding (left in the code): TriangulateMesh returns zero-area triangles for exactly colinear boundary "
+        "vertices (site corr:c14 mesh/zero-area-triangle-on-colinear-boundary); on those outputs the checker still "
+        "verifies everything else (edgesOkG false)",
+    ],
+    level_text=(
+        "Machine-checked (Lean 4, all linear ordered fields): ear clipping with ANY choice of ears preserves the "
+        "shoelace area, emits n-2 triangles on input vertices (shoelace_fan, ear_clip_area), the ear test only accepts "
+        "ears oriented like the polygon (ear_clip_orientation), diagonals added in both directions cancel for any "
+        "decomposition into closed walks (diagonals_cancel), the stack algorithm's triangles sum to the monotone "
+        "polygon's area with n-2 triangles and empty final stack (monotone_stack_area), the sweep classification is the "
+        "textbook start/split/end/merge/chain by turn direction (sweep_types_turn/exhaustive), ProfileMesh's volume is "
+        "area x height for every certified cap triangulation (profile_volume_eq_area_times_height), and the certificate "
+        "checker is sound (triangulation_certificate_sound: input vertices only, documented orientation, glued along "
+        "interior edges with boundary exactly the input boundary incl. T-junction refinement, chain-level boundary "
+        "equation, exact area). Tie: the checker is executed at Rat, with no tolerance, on the real outputs of "
+        "Triangulate / TriangulateMesh / triangulateSingleMesh / TriangulateFace / ProfileMesh for generated inputs; "
+        "the models of Triangulate, the stack algorithm, VertexType and the sweep's helper bookkeeping are compared "
+        "with the real internals exactly."),
+    level_note=(
+        "Universal for the algebraic/combinatorial cores and the checker; the statement 'the real code's output passes "
+        "the checker' is established per generated instance (the sweep's geometric correctness is not proved). The "
+        "pointwise non-overlap/cover conclusion rests on three standard geometric lemmas that are not mechanised "
+        "(triangle winding number, polygonal Jordan theorem, crossing subdivision). One known finding (zero-area "
+        "triangles from TriangulateMesh on exactly colinear boundary vertices) is left in the code."),
 )
